@@ -232,6 +232,18 @@ impl Index {
             let f = self.locate(&format!("{} nosig", inner))?;
             return lift_nested_fn(f, name.trim());
         }
+        if let Some(rest) = loc.strip_prefix("closure ") {
+            // `closure "PARAMS" of <fn locator>`: the body of the closure whose parameter list (between the bars) is PARAMS,
+            // lifted into a function (N9); the template's signature names the parameters and the captured variables
+            let (pars, after) = parse_quoted(rest).ok_or_else(|| Undecided("closure locator needs the quoted parameter list".into()))?;
+            let inner = after.trim().strip_prefix("of ").ok_or_else(|| Undecided("closure locator needs 'of <fn locator>'".into()))?;
+            let inner = match &in_file {
+                Some(f) => format!("{} in {}", inner, f),
+                None => inner.to_string(),
+            };
+            let f = self.locate(&format!("{} nosig", inner))?;
+            return lift_closure(f, &pars);
+        }
         if let Some(rest) = loc.strip_prefix("stmts ") {
             let (first, after) = parse_quoted(rest).ok_or_else(|| Undecided("stmts locator needs quoted first statement prefix".into()))?;
             let after = after.trim().strip_prefix("..").ok_or_else(|| Undecided("stmts locator needs '..'".into()))?;
@@ -826,6 +838,45 @@ fn lift_nested_fn(f: Found, name: &str) -> Result<Found, Undecided> {
         sig_text: f.body_text[sig.clone()].to_string(),
         sig_src: f.body_text[sig].to_string(),
         lifted: None,
+        ..f
+    })
+}
+
+fn lift_closure(f: Found, pars: &str) -> Result<Found, Undecided> {
+    use syn::visit::Visit;
+    let block: syn::Block = syn::parse_str(&f.body_text).map_err(|e| Undecided(format!("body of {} does not parse: {}", f.origin, e)))?;
+    struct V {
+        want: String,
+        hits: Vec<(std::ops::Range<usize>, bool)>,
+    }
+    impl<'ast> Visit<'ast> for V {
+        fn visit_expr_closure(&mut self, c: &'ast syn::ExprClosure) {
+            let p = norm(&c.inputs.to_token_stream().to_string());
+            if p == self.want {
+                let is_block = matches!(&*c.body, syn::Expr::Block(b) if b.label.is_none() && b.attrs.is_empty());
+                self.hits.push((c.body.span().byte_range(), is_block));
+            }
+            syn::visit::visit_expr_closure(self, c);
+        }
+    }
+    let mut v = V { want: norm(pars), hits: vec![] };
+    v.visit_block(&block);
+    if v.hits.len() != 1 {
+        bail!("lost anchor: closure `|{}|` found {} times in {}", pars, v.hits.len(), f.origin);
+    }
+    let (r, is_block) = v.hits.pop().unwrap();
+    let body_line = f.body_line_start + line_of(&f.body_text, r.start) - 1;
+    let txt = &f.body_text[r.clone()];
+    let body_text = if is_block { txt.to_string() } else { format!("{{ {} }}", txt) };
+    Ok(Found {
+        origin: format!("{} closure `|{}|` at line {}", f.origin, pars, body_line),
+        item_text: txt.to_string(),
+        item_line_start: body_line,
+        item_line_end: f.body_line_start + line_of(&f.body_text, r.end) - 1,
+        body_text,
+        body_line_start: body_line,
+        sig_norm: None,
+        lifted: Some(format!("closure `|{}|`", pars)),
         ..f
     })
 }
